@@ -18,6 +18,21 @@ def points(draw, n, d, lo=-2.0, hi=2.0):
     return [[firsts[i]] + [draw(q16(lo, hi)) for _ in range(d - 1)] for i in range(n)]
 
 
+BIG_SIZES = (33, 65, 127, 129, 150, 257, 513, 1025, 1324, 2050)
+_P = 4096
+
+
+def lattice(n, d, a, s, lo=-2.0, hi=2.0):
+    """n <= 4096 distinct dyadic points of [lo,hi)^d (distinct first coordinate), a pure function of (n, d, a, s): the
+    large-batch size classes cannot afford one Hypothesis draw per coordinate."""
+    A = 2 * a + 1
+    return [[lo + (((i * A * (2 * j + 1) + s * (j + 1) + (i * i * j * 7)) % _P) / _P) * (hi - lo) for j in range(d)] for i in range(n)]
+
+
+def lat1(n, a, s, lo, hi):
+    return [r[0] for r in lattice(n, 1, a, s, lo, hi)]
+
+
 @st.composite
 def weight(draw, ncomp, allow_vec=True):
     if allow_vec and ncomp > 1 and draw(st.booleans()):
@@ -59,12 +74,16 @@ def bfun_strat(draw, ncomp, ret=None):
 
 @st.composite
 def single_spec(draw, kinds=("ode", "statio", "nonstatio"), want=("eq",), maybe=("ic", "boundary", "norm", "obs"),
-                param_batch="no", hetero=False, dims=(1, 2), max_m=3, transform=None, nmax=5, obs_params=False, extra=(0, 2), nmin=1, slice_solution=False):
+                param_batch="no", hetero=False, dims=(1, 2), max_m=3, transform=None, nmax=5, obs_params=False, extra=(0, 2), nmin=1, slice_solution=False, big="no"):
+    """big = "always" / "maybe": large-batch size classes (BIG_SIZES rows, around and beyond the usual block sizes 128 / 1024
+    of chunked evaluation); the coordinates then come from `lattice` (seeded by two drawn integers) instead of one draw each."""
     kind = draw(st.sampled_from(list(kinds)))
+    bigm = big == "always" or (big == "maybe" and draw(st.integers(0, 7)) == 0)
+    la, ls = (draw(st.integers(0, 500)), draw(st.integers(0, _P - 1))) if bigm else (0, 0)
     d = 0 if kind == "ode" else draw(st.sampled_from(list(dims)))
     time = kind != "statio"
     din = d + (1 if time else 0)
-    m = draw(st.integers(1, max_m))
+    m = 1 if "norm" in want and kind != "ode" else draw(st.integers(1, max_m))
     tr = transform or draw(st.sampled_from(["none", "scale", "affine"]))
     spec = {"kind": kind, "dim": d,
             "net": {"field": draw(field_specs(din, m, nsin=(1, 2), gauss=draw(st.booleans()))), "transform": tr}}
@@ -90,28 +109,40 @@ def single_spec(draw, kinds=("ode", "statio", "nonstatio"), want=("eq",), maybe=
     w = {}
     batch = {}
     if kind == "ode":
-        n = draw(st.integers(nmin, nmax))
-        batch["t"] = draw(st.lists(q16(0, 2), min_size=n, max_size=n, unique=True))
+        n = draw(st.sampled_from(BIG_SIZES)) if bigm else draw(st.integers(nmin, nmax))
+        batch["t"] = lat1(n, la, ls, 0.0, 2.0) if bigm else draw(st.lists(q16(0, 2), min_size=n, max_size=n, unique=True))
         N = n
     elif kind == "statio":
-        n = draw(st.integers(nmin, nmax))
-        batch["x"] = draw(points(n, d))
+        n = draw(st.sampled_from(BIG_SIZES)) if bigm else draw(st.integers(nmin, nmax))
+        batch["x"] = lattice(n, d, la, ls) if bigm else draw(points(n, d))
         N = n
     else:
         cart = draw(st.booleans())
-        nt = draw(st.integers(min(nmin, 3), 3))
-        nx = draw(st.integers(1, 3)) if cart else nt
-        batch["t"] = draw(st.lists(q16(0, 1), min_size=nt, max_size=nt, unique=True))
-        batch["x"] = draw(points(nx, d))
+        if bigm:
+            total = draw(st.sampled_from(BIG_SIZES))
+            nt = draw(st.integers(1, min(total, 40))) if cart else total
+            nx = -(-total // nt) if cart else nt
+            batch["t"] = lat1(nt, la, ls, 0.0, 1.0)
+            batch["x"] = lattice(nx, d, la + 1, ls)
+        else:
+            nt = draw(st.integers(min(nmin, 3), 3))
+            nx = draw(st.integers(1, 3)) if cart else nt
+            batch["t"] = draw(st.lists(q16(0, 1), min_size=nt, max_size=nt, unique=True))
+            batch["x"] = draw(points(nx, d))
         batch["cartesian"] = cart
         N = nt * nx if cart else nt
     if "boundary" in on and d == 2:
         if pb_on:
             nb = N if kind == "statio" else (N // len(batch["t"]) if batch.get("cartesian", True) else N)
         else:
-            nb = draw(st.integers(1, 4)) if (kind == "statio" or batch.get("cartesian", True)) else len(batch["t"])
-        batch["border"] = [[mn[1 - f // 2] + draw(st.integers(0, 16)) / 16.0 * (mx[1 - f // 2] - mn[1 - f // 2])
-                            for _ in range(nb)] for f in range(4)]
+            nb = ((draw(st.sampled_from([5, 33, 130])) if bigm else draw(st.integers(1, 4)))
+                  if (kind == "statio" or batch.get("cartesian", True)) else len(batch["t"]))
+        if bigm or nb > 8:
+            batch["border"] = [[mn[1 - f // 2] + u * (mx[1 - f // 2] - mn[1 - f // 2]) for u in lat1(nb, la + f, ls, 0.0, 1.0)]
+                               for f in range(4)]
+        else:
+            batch["border"] = [[mn[1 - f // 2] + draw(st.integers(0, 16)) / 16.0 * (mx[1 - f // 2] - mn[1 - f // 2])
+                                for _ in range(nb)] for f in range(4)]
     if "boundary" in on and pb_on and d == 1 and kind == "statio" and N != 1:
         on -= {"boundary"}  # the 1-D border batch has one row; a parameter batch needs as many rows
     if "boundary" in on and pb_on and d == 1 and kind == "nonstatio" and N != len(batch["t"]):
@@ -139,8 +170,8 @@ def single_spec(draw, kinds=("ode", "statio", "nonstatio"), want=("eq",), maybe=
         spec["ic"] = None
     # ---- normalisation
     if "norm" in on:
-        J = draw(st.integers(2, 8))
-        spec["norm"] = {"samples": draw(points(J, d)), "L": draw(pos16(0.5, 4)), "w": None}
+        J = draw(st.sampled_from([8, 33, 130])) if (bigm and N <= 300) else draw(st.integers(2, 8))
+        spec["norm"] = {"samples": lattice(J, d, la + 2, ls) if J > 8 else draw(points(J, d)), "L": draw(pos16(0.5, 4)), "w": None}
         w["norm_loss"] = draw(pos16())
     else:
         spec["norm"] = None
@@ -165,14 +196,18 @@ def single_spec(draw, kinds=("ode", "statio", "nonstatio"), want=("eq",), maybe=
         hi = draw(st.integers(lo + 1, m))
         sl = None if (lo, hi) == (0, m) and draw(st.booleans()) else [lo, hi]
         k = (hi - lo) if sl else m
-        zin = draw(points(N, din))
-        spec["obs"] = {"pinn_in": zin, "val": [[draw(q16(-2, 2)) for _ in range(k)] for _ in range(N)],
+        zin = lattice(N, din, la + 3, ls) if bigm else draw(points(N, din))
+        spec["obs"] = {"pinn_in": zin, "val": lattice(N, k, la + 4, ls) if bigm else [[draw(q16(-2, 2)) for _ in range(k)] for _ in range(N)],
                        "obs_slice": sl, "eq_params": {}}
         if obs_params:
             cand = [kk for kk, v in spec["eq_params"].items() if not (isinstance(v, list) and len(v) == 2)]
             okeys = draw(st.lists(st.sampled_from(cand), min_size=0, max_size=min(2, len(cand)), unique=True))
-            spec["obs"]["eq_params"] = {kk: draw(st.lists(q16(0.5, 2.5) if kk == "theta" else q16(-2, 2), min_size=N,
-                                                         max_size=N, unique=True)) for kk in sorted(okeys)}
+            if bigm:
+                spec["obs"]["eq_params"] = {kk: lat1(N, la + 5 + j, ls, 0.5 if kk == "theta" else -2.0, 2.5 if kk == "theta" else 2.0)
+                                            for j, kk in enumerate(sorted(okeys))}
+            else:
+                spec["obs"]["eq_params"] = {kk: draw(st.lists(q16(0.5, 2.5) if kk == "theta" else q16(-2, 2), min_size=N,
+                                                             max_size=N, unique=True)) for kk in sorted(okeys)}
         w["observations"] = draw(weight(k))
         m = m_full
     else:
@@ -183,8 +218,12 @@ def single_spec(draw, kinds=("ode", "statio", "nonstatio"), want=("eq",), maybe=
     if pb_on:
         cand = [k for k, v in spec["eq_params"].items() if not (isinstance(v, list) and len(v) == 2)]
         keys = draw(st.lists(st.sampled_from(cand), min_size=1, max_size=max(1, len(spec["eq_params"]) - 1), unique=True))
-        spec["param_batch"] = {k: draw(st.lists(q16(0.5, 2.5) if k == "theta" else q16(-2, 2), min_size=N, max_size=N,
-                                                unique=True)) for k in sorted(keys)}
+        if bigm:
+            spec["param_batch"] = {k: lat1(N, la + 9 + j, ls, 0.5 if k == "theta" else -2.0, 2.5 if k == "theta" else 2.0)
+                                   for j, k in enumerate(sorted(keys))}
+        else:
+            spec["param_batch"] = {k: draw(st.lists(q16(0.5, 2.5) if k == "theta" else q16(-2, 2), min_size=N, max_size=N,
+                                                    unique=True)) for k in sorted(keys)}
     spec["hetero"] = None
     if hetero and spec["eq"] is not None and (hetero == "always" or draw(st.booleans())):
         keys = draw(st.lists(st.sampled_from(pn), min_size=1, max_size=len(pn), unique=True))
